@@ -15,7 +15,7 @@ PROPERTY_ID = "C18"
 LEVEL = "fault_enumeration"
 RULE = (
     "fault enumeration over every fixture under tests/files plus generated files with nested loads (MetaModule in MetaModule in a project, "
-    "Sampler with an embedded effect, MetaModule holding a Sampler with effect): (a) clean load, (b) an OSError at read call k for every k "
+    "Sampler with an embedded effect, MetaModule holding a Sampler with effect; thorough: 24 more files from generated MetaModule / Sampler / project recipes): (a) clean load, (b) an OSError at read call k for every k "
     "(K counted on a clean run), (c) an exception at every chunk boundary j counted across nested loads, (d) truncation at every chunk "
     "boundary and at byte offsets inside headers/payloads, (e) semantic failures (unknown STYP, invalid enum CVAL), (f) path loads of files that are empty, shorter than a chunk header, not SunVox files at all, or cut short; each for the strictness "
     "flag initially True and False and through a stream and through a path. quick: (b),(c) complete for stream + flag True, every 7th point (plus the first four and the last) "
@@ -46,6 +46,9 @@ def plan(tier):
     files = fixture_files()
     items = [{"src": "fixture", "path": f, "size": os.path.getsize(f)} for f in files]
     items += [{"src": "generated", "name": n, "size": 20000} for n in ("meta_in_meta", "sampler_effect", "meta_sampler_effect", "meta_depth3")]
+    if tier == "thorough":
+        # generated files with nested loads (recipes drawn with a pinned seed per item)
+        items += [{"src": "recipe", "name": "recipe%02d" % i, "index": i, "size": 30000} for i in range(24)]
     items.sort(key=lambda x: -x["size"])
     n = 16
     shards = [{"kind": "files", "items": [], "w": 0} for _ in range(n)]
@@ -54,6 +57,40 @@ def plan(tier):
         s["items"].append(it)
         s["w"] += it["size"]
     return [s for s in shards if s["items"]]
+
+
+def recipe_bytes(index, seed):
+    """A generated MetaModule / Sampler / project file (recipe strategies of C02/C15/C16, seed pinned)."""
+    import hypothesis
+    from hypothesis import strategies as st
+    from rv.api import Synth
+
+    from checks import c15
+    from vlib import build
+    from vlib.harness import derive_seed, hsettings
+
+    kind = index % 3
+    if kind == 0:
+        strat = c15.meta_spec(2, in_project=False)
+    elif kind == 1:
+        strat = build.module_spec(in_project=False, depth=2, tname="Sampler")
+    else:
+        strat = build.project_spec(depth=2, max_modules=4, max_patterns=2, types=["MetaModule", "Sampler", "Amplifier", "MultiSynth"])
+    box = []
+
+    @hypothesis.seed(derive_seed(seed, "C18", "recipe", index))
+    @hsettings(1, shrink=False)
+    @hypothesis.given(strat)
+    def grab(x):
+        box.append(x)
+
+    grab()
+    spec = box[-1]
+    if kind == 0:
+        return Synth(c15.build_meta(spec)).read()
+    if kind == 1:
+        return Synth(build.make_module(spec)).read()
+    return build.make_project(spec).read()
 
 
 def generated_bytes(name):
@@ -230,6 +267,10 @@ def run_item(ctx, env, item):
         with open(item["path"], "rb") as f:
             data = f.read()
         ident = os.path.relpath(item["path"], os.path.join(REPO, "tests", "files"))
+    elif item["src"] == "recipe":
+        data = recipe_bytes(item["index"], ctx.seed)
+        ident = "generated:%s@seed%d" % (item["name"], ctx.seed)
+        ctx.label("generated_recipe_file")
     else:
         data = generated_bytes(item["name"])
         ident = "generated:" + item["name"]
@@ -338,7 +379,11 @@ def replay(ctx, doc):
 
     r = doc["recipe"]
     ident = r["file"].split("#")[0]
-    if ident.startswith("generated:"):
+    if ident.startswith("generated:recipe"):
+        nm, sd = ident.split(":", 1)[1].split("@seed")
+        item = {"src": "recipe", "name": nm, "index": int(nm[6:])}
+        data = recipe_bytes(item["index"], int(sd))
+    elif ident.startswith("generated:"):
         item = {"src": "generated", "name": ident.split(":", 1)[1]}
         data = generated_bytes(item["name"])
     else:
